@@ -2,6 +2,7 @@ package gen
 
 import (
 	"fmt"
+	"math/big"
 	"strings"
 
 	"pgregory.net/rapid"
@@ -49,21 +50,22 @@ type YN struct {
 // YDoc is one document of a stream.
 type YDoc struct {
 	Root        *YN    `json:"root"`
-	Sep         bool   `json:"sep"`          // starts with ---
+	Sep         bool   `json:"sep"`            // starts with ---
 	LeadComment string `json:"lead,omitempty"` // comment block before the document (before ---)
 	Trail       string `json:"trail,omitempty"`
 }
 
 type YOpts struct {
-	Depth     int
-	Comments  bool
-	Anchors   bool
-	Tags      bool
-	Flow      bool
-	Blocks    bool // literal / folded scalars
-	MergeKeys bool
-	Hostile   bool // strings with control characters, huge numbers ... (C06)
-	StrKeys   bool
+	Depth      int
+	Comments   bool
+	Anchors    bool
+	Tags       bool
+	Flow       bool
+	Blocks     bool // literal / folded scalars
+	MergeKeys  bool
+	LineOnFlow bool // line comments on flow / empty collections (C07)
+	Hostile    bool // strings with control characters, huge numbers ... (C06)
+	StrKeys    bool
 }
 
 type ygen struct {
@@ -91,7 +93,7 @@ func (g *ygen) scalar(forKey bool) *YN {
 		n.T = "int"
 		n.S = rapid.SampledFrom([]string{"0", "1", "-1", "42", "1000", "2147483648", "-9223372036854775808", "9223372036854775807", "7"}).Draw(t, "int")
 		if g.o.Hostile && rapid.IntRange(0, 3).Draw(t, "big") == 0 {
-			n.S = rapid.SampledFrom([]string{"9007199254740993", "-9007199254740993", "4611686018427387904", "9223372036854775808", "18446744073709551615"}).Draw(t, "bigint")
+			n.S = rapid.SampledFrom([]string{"9007199254740993", "-9007199254740993", "4611686018427387904", "9223372036854775808", "18446744073709551615", "0x1F", "0x7FFFFFFFFFFFFFFF", "0x8000000000000000", "0xFFFFFFFFFFFFFFFF", "0o17"}).Draw(t, "bigint")
 			if rapid.IntRange(0, 4).Draw(t, "huge") == 0 {
 				// typed !!float by the YAML reader: the YAML leg of the open big-integer finding, kept rare
 				n.S = rapid.SampledFrom([]string{"-9223372036854775809", "123456789012345678901234567890"}).Draw(t, "hugeint")
@@ -144,6 +146,10 @@ func (g *ygen) scalar(forKey bool) *YN {
 			n.S = rapid.SampledFrom([]string{"\x00nul", "\x1f", "\x7f del", "<tag>&amp;", " ", "\U0001F600\U0001F601", "\\u0041", "\"\"", "'", "\b\f", "a\u0085b", strings.Repeat("long ", 30)}).Draw(t, "hostile")
 			n.Style = Double
 		}
+	}
+	if g.o.Tags && !forKey && (n.Style == Literal || n.Style == Folded) && rapid.IntRange(0, 3).Draw(t, "btagged") == 0 {
+		// an explicit tag on a block scalar: `!custom |`, `!!str >`
+		n.Tag = rapid.SampledFrom([]string{"!custom", "!my/tag", "!!str"}).Draw(t, "bctag")
 	}
 	if g.o.Tags && !forKey && n.Style != Literal && n.Style != Folded && rapid.IntRange(0, 11).Draw(t, "tagged") == 0 {
 		if n.T == "int" || n.T == "bool" {
@@ -238,6 +244,10 @@ func (g *ygen) value(depth int, inFlow bool) *YN {
 			n.Head = g.comment()
 		}
 		if n.K == YScalar && n.Style != Literal && n.Style != Folded && rapid.IntRange(0, 4).Draw(t, "lc") == 0 {
+			n.Line = g.comment()
+		}
+		// a collection written on one line (flow, or empty) can carry a line comment as well: `k: [] # c`
+		if g.o.LineOnFlow && (n.K == YMap || n.K == YSeq) && (n.Flow || n.Len() == 0) && rapid.IntRange(0, 3).Draw(t, "lcf") == 0 {
 			n.Line = g.comment()
 		}
 	}
@@ -396,9 +406,9 @@ func emitValue(b *strings.Builder, n *YN, indent string) {
 	case n.isInline():
 		if n.K != YAlias && n.Len() == 0 && n.K != YScalar {
 			if n.K == YMap {
-				b.WriteString(" " + n.props() + "{}" + "\n")
+				b.WriteString(" " + n.props() + "{}" + lineComment(n) + "\n")
 			} else {
-				b.WriteString(" " + n.props() + "[]" + "\n")
+				b.WriteString(" " + n.props() + "[]" + lineComment(n) + "\n")
 			}
 			return
 		}
@@ -504,6 +514,13 @@ func (n *YN) Data() *model.Value {
 	case "bool":
 		return model.NewBool(n.S == "true")
 	case "int":
+		for pre, base := range map[string]int{"0x": 16, "0o": 8} {
+			if strings.HasPrefix(n.S, pre) {
+				if i, ok := new(big.Int).SetString(n.S[2:], base); ok {
+					return model.NewBig(i)
+				}
+			}
+		}
 		v, _ := model.ParseNumber(n.S)
 		return v
 	case "float":
